@@ -17,7 +17,7 @@ from lib.tocoq import Some, term, val
 
 PROP = "C05"
 PROPS_FILE = "props/C05.v"
-GEN = ["gen_flatten", "gen_partition"]
+GEN = ["gen_flatten", "gen_partition", "gen_dispatch"]
 CORRESPONDENCES = [
     "location:prepare_write~model",
     "manifest-path:_gather_manifest~model",
@@ -53,7 +53,7 @@ ASSUMPTIONS = [
     "locations are judged on the file system plugin; object stores with flat keys are covered by the string-level theorems only",
 ]
 
-IMPORTS = "From TS Require Import model.Flatten model.StoragePath.\n"
+IMPORTS = "From TS Require Import model.Flatten model.StoragePath model.DispatchGenObs.\n"
 
 SIG_CLASH = "C05:location-clash:chunk-suffix-equals-sibling-key"
 SIG_EMPTY = "C05:empty-key-component"
@@ -910,8 +910,8 @@ def run_model(res: Result, outs):
                 continue
             rs.append((term(s), val(None if r is None else [r]), (s, r)))
     for name, fn, cases, in_type in (
-            ("location:prepare_write~model", "obs_location_keys", loc, "bool * bool * Z * list pystr * option (list Z)"),
-            ("manifest-path:_gather_manifest~model", "obs_manifest_path", mp, "Z * pystr"),
+            ("location:prepare_write~model", "obs_location_keys_gen", loc, "bool * bool * Z * list pystr * option (list Z)"),
+            ("manifest-path:_gather_manifest~model", "obs_manifest_path_gen", mp, "Z * pystr"),
             ("resolve:os.path~model", "obs_resolve", rs, "pystr"),
             ("overlap:manifest-references~model", "obs_overlaps", ov, "list ref")):
         if not cases:
